@@ -1,4 +1,4 @@
-package props
+package arith
 
 import (
 	"fmt"
